@@ -178,13 +178,13 @@ EXTRA6 = {
 
 EXTRA7 = {
  "C07": " Also: T-SQL (arity, chunk bound, schema) over the statements reachable from start-up clean-up and the removal of marked messages.",
- "C19": " Also: nothing reachable from a function literal that runs inside a database wrapper enters db.Client.Read/Write again (self edge of the database lock).",
+ "C19": " Also: nothing reachable from a function literal that runs inside a database wrapper enters db.Client.Read/Write again (self edge of the database lock); every sync.Cond Broadcast/Signal is issued with cond.L held or after the function passed through cond.L (no lost wake-up of the queue pump).",
  "C04": " Also: no function of internal/state / internal/backend permutes a slice parameter in place (request order = UID order).",
  "C15": " Also: the numbers handed to response.Search originate only from Mailbox.Search (where UID vs sequence number is decided).",
  "C20": " R20.4 now also treats a caller-supplied mailbox as possibly the recovery mailbox.",
  "C03": " Also: per-flag index writes pick their ids out of the unfiltered rows tx.GetMessagesFlags returned; every comparison of message_flags.value with a bound parameter is COLLATE NOCASE (found and repaired a genuine defect, fix f80fe44).",
  "C05": " Also: the responder queue (State.res) receives every responder queueResponder is given, on every path.",
- "C09": " Also: only a failed parse of the file name keeps a stored entry out of List.",
+ "C09": " Also: only a failed parse of the file name keeps a stored entry out of List; a releaser removes a lock-table entry only on the equal edge of a comparison of the table's current entry for the id with its own (found and repaired a genuine defect, fix 14ba087).",
  "C10": " Also: Scanner.ConsumeBytes (which prepends the look-ahead byte) is never executed twice without an advance of the scanner in between.",
  "C11": " Also: a method of a command's payload is called only where the error that came with the command was found nil.",
  "C12": " Also: every string converted to rfc822.MIMEType is a constant, a mime.ParseMediaType result or lower-cased.",
